@@ -152,16 +152,23 @@ func stripConv(v ssa.Value) ssa.Value {
 // materialised (x := a && b) shows up as a Phi and is followed when every incoming
 // edge is a constant or a single tested value.
 func factsOf(cond ssa.Value, truth bool) []Fact {
+	return factsOfD(cond, truth, 0)
+}
+
+func factsOfD(cond ssa.Value, truth bool, depth int) []Fact {
+	if depth > 6 {
+		return []Fact{{cond, kindBool(truth)}}
+	}
 	cond = stripConv(cond)
 	switch x := cond.(type) {
 	case *ssa.UnOp:
 		if x.Op == token.NOT {
-			return factsOf(x.X, !truth)
+			return factsOfD(x.X, !truth, depth+1)
 		}
 		if x.Op == token.MUL {
 			// load of a local boolean/err variable that was spilled to an Alloc
 			if v := singleStoreValue(x); v != nil {
-				return append(factsOf(v, truth), Fact{cond, kindBool(truth)})
+				return append(factsOfD(v, truth, depth+1), Fact{cond, kindBool(truth)})
 			}
 		}
 	case *ssa.BinOp:
@@ -191,10 +198,10 @@ func factsOf(cond ssa.Value, truth bool) []Fact {
 				return fs
 			}
 			if b, ok := boolConst(x.Y); ok {
-				return factsOf(x.X, eq == b)
+				return factsOfD(x.X, eq == b, depth+1)
 			}
 			if b, ok := boolConst(x.X); ok {
-				return factsOf(x.Y, eq == b)
+				return factsOfD(x.Y, eq == b, depth+1)
 			}
 		}
 	case *ssa.Phi:
@@ -209,7 +216,7 @@ func factsOf(cond ssa.Value, truth bool) []Fact {
 				}
 				continue
 			}
-			fs = append(fs, factsOf(e, truth)...)
+			fs = append(fs, factsOfD(e, truth, depth+1)...)
 		}
 		if decided {
 			return append(fs, Fact{cond, kindBool(truth)})
